@@ -1150,6 +1150,22 @@ def _rejection(run, rng, vd):
     expect_raise("block_split", "northing with a single element (broadcastable)", lambda: vd.block_split((east, north[:1]), spacing=sp), lambda: vd.block_split((east, north), spacing=sp))
     expect_raise("block_split", "extra coordinate with a single element (broadcastable)", lambda: vd.block_split((east, north, east[:1]), spacing=sp), lambda: vd.block_split((east, north, east), spacing=sp))
     expect_raise("rolling_window", "northing (1, n) against easting (n,)", lambda: vd.rolling_window((east, north.reshape(1, -1)), size=span / 2, spacing=span / 4), lambda: vd.rolling_window((east, north), size=span / 2, spacing=span / 4))
+    # component COUNTS that disagree although every array has the right size: fewer weights than data components (three data, two
+    # weights; two data, one weight), more weights than data
+    d3, w3 = vdata + (vdata[0] * 0.5,), vweights + (vweights[1],)
+    three = lambda: vd.Vector([vd.Trend(1), vd.Trend(1), vd.Trend(1)])  # noqa: E731
+    expect_raise("Vector.fit", "three data components with two (correctly sized) weights", lambda: three().fit(vcoords, d3, w3[:2]), lambda: three().fit(vcoords, d3, w3))
+    expect_raise("Vector.fit", "two data components with one (correctly sized) weights array in a tuple", lambda: vd.Vector([vd.Trend(1), vd.Trend(1)]).fit(vcoords, vdata, vweights[:1]), lambda: vd.Vector([vd.Trend(1), vd.Trend(1)]).fit(vcoords, vdata, vweights))
+    expect_raise("BlockReduce.filter", "three data components with two weights", lambda: vd.BlockReduce(np.average, spacing=sp).filter(vcoords, d3, w3[:2]), lambda: vd.BlockReduce(np.average, spacing=sp).filter(vcoords, d3, w3))
+    expect_raise("train_test_split", "three data components with two weights", lambda: vd.train_test_split(vcoords, d3, w3[:2], random_state=0), lambda: vd.train_test_split(vcoords, d3, w3, random_state=0))
+    expect_raise("check_fit_input", "three data components with two weights", lambda: vd.base.utils.check_fit_input(vcoords, d3, w3[:2]), lambda: vd.base.utils.check_fit_input(vcoords, d3, w3))
+    expect_raise("check_fit_input", "two data components with three weights", lambda: vd.base.utils.check_fit_input(vcoords, vdata, w3), lambda: vd.base.utils.check_fit_input(vcoords, vdata, vweights))
+    # longitude_continuity with coordinate arrays of different shapes (the unchanged code refuses them when it stacks the result)
+    lon_ok, lat_ok = np.array([350.0, 5.0, 10.0, 20.0]), np.array([-5.0, 0.0, 5.0, 1.0])
+    geo = [340.0, 30.0, -10.0, 10.0]
+    for kind, bad_c in (("latitude shorter than longitude", [lon_ok, lat_ok[:-1]]), ("extra coordinate of another length", [lon_ok, lat_ok, lat_ok[:2]]),
+                        ("2-D longitude with 1-D latitude", [lon_ok.reshape(2, 2), lat_ok]), ("longitude shorter than latitude", [lon_ok[:3], lat_ok])):
+        expect_raise("longitude_continuity", "coordinate shapes differ (%s)" % kind, (lambda c: lambda: vd.longitude_continuity(c, geo))(bad_c), lambda: vd.longitude_continuity([lon_ok, lat_ok], geo))
     # an extra (ignored) coordinate whose shape differs from easting / northing: the returned indices are documented as usable on
     # every coordinate array, so it must be refused like a mismatch between easting and northing
     extra_bad = (east, north, east[:-1])
